@@ -207,5 +207,63 @@ Section SplitBuild.
   Lemma split_build : forall td ys, List.length ys = nleaves td -> split_prefix td (build td ys) = Some ys.
   Proof. intros td ys H. unfold build. destruct (build_aux_split td ys [] H) as [H1 _].
     rewrite app_nil_r in H1. exact H1. Qed.
+
 End SplitBuild.
 Arguments build {A} dflt td ys.
+
+(* with enough subtrees the default is never used *)
+Lemma build_aux_dflt_irrelevant A (d d' : pt A) : forall td ys,
+  nleaves td <= List.length ys ->
+  build_aux d' td ys = build_aux d td ys /\
+  List.length (snd (build_aux d td ys)) = List.length ys - nleaves td.
+Proof.
+  unfold nleaves. induction td as [u|k cs IH] using pt_ind'; intros ys H.
+  - cbn in H. destruct ys; [cbn in H; lia|]. cbn. split; [reflexivity|lia].
+  - cbn [flatten] in H. cbn [build_aux flatten].
+    assert (Hl : forall ys, List.length (flat_map flatten cs) <= List.length ys ->
+              build_list (build_aux d') cs ys = build_list (build_aux d) cs ys /\
+              List.length (snd (build_list (build_aux d) cs ys)) = List.length ys - List.length (flat_map flatten cs)).
+    { clear ys H. induction IH as [|c cs' Hc _ IHl]; intros ys H.
+      - cbn. split; [reflexivity|lia].
+      - cbn [flat_map] in H. rewrite app_length in H. cbn [build_list flat_map]. rewrite app_length.
+        destruct (Hc ys ltac:(lia)) as [H1 H2]. rewrite H1.
+        destruct (build_aux d c ys) as [t r1]. cbn [snd] in H2.
+        destruct (IHl r1 ltac:(lia)) as [H3 H4]. rewrite H3.
+        destruct (build_list (build_aux d) cs' r1) as [ts r2]. cbn [snd] in *. split; [reflexivity|lia]. }
+    destruct (Hl ys H) as [H1 H2]. rewrite H1.
+    destruct (build_list (build_aux d) cs ys) as [cs' r]. cbn [snd] in *. auto.
+Qed.
+Lemma build_dflt_irrelevant A (d d' : pt A) td ys :
+  nleaves td <= List.length ys -> build d' td ys = build d td ys.
+Proof. intros H. unfold build. now destruct (build_aux_dflt_irrelevant d d' td ys H) as [-> _]. Qed.
+
+(* mapping over the leaves commutes with splitting and rebuilding *)
+Lemma split_prefix_pmap A B (f : A -> B) td : forall x,
+  split_prefix td (pmap f x) = option_map (map (pmap f)) (split_prefix td x).
+Proof.
+  induction td as [u|k cs IH] using pt_ind'; intros x; [reflexivity|].
+  destruct x as [a|k' xs]; [reflexivity|]. cbn [pmap split_prefix].
+  destruct (ckind_eqb k k'); [|reflexivity].
+  revert xs. induction IH as [|c cs' Hc _ IHl]; intros [|x xs]; try reflexivity.
+  cbn [map split_list]. rewrite Hc, IHl.
+  destruct (split_prefix c x); cbn; [|reflexivity].
+  destruct (split_list (@split_prefix A) cs' xs); cbn; [|reflexivity]. now rewrite map_app.
+Qed.
+
+Lemma build_aux_pmap A B (f : A -> B) (d : pt A) td : forall ys,
+  build_aux (pmap f d) td (map (pmap f) ys) =
+  (pmap f (fst (build_aux d td ys)), map (pmap f) (snd (build_aux d td ys))).
+Proof.
+  induction td as [u|k cs IH] using pt_ind'; intros ys.
+  - destruct ys; reflexivity.
+  - cbn [build_aux].
+    assert (Hl : forall ys, build_list (build_aux (pmap f d)) cs (map (pmap f) ys) =
+              (map (pmap f) (fst (build_list (build_aux d) cs ys)), map (pmap f) (snd (build_list (build_aux d) cs ys)))).
+    { clear ys. induction IH as [|c cs' Hc _ IHl]; intros ys; [reflexivity|].
+      cbn [build_list]. rewrite Hc. destruct (build_aux d c ys) as [t r1]. cbn [fst snd].
+      rewrite IHl. destruct (build_list (build_aux d) cs' r1) as [ts r2]. reflexivity. }
+    rewrite Hl. destruct (build_list (build_aux d) cs ys) as [cs' r]. reflexivity.
+Qed.
+Lemma build_pmap A B (f : A -> B) (d : pt A) td ys :
+  build (pmap f d) td (map (pmap f) ys) = pmap f (build d td ys).
+Proof. unfold build. now rewrite build_aux_pmap. Qed.
